@@ -46,6 +46,36 @@ CHECKS = {
   text="Every ordered pair of operand kinds {time, duration, int, float, string, None} x 19 operators over value pools (39 instants in 3 zones, 16 durations, boundary ints/floats; full product) and rapid values over 12 zones incl. DST days is evaluated through the VM and compared with a table of the documented operations computed exactly: undocumented ordered pairs must be rejected, never computed as the reversed operation. Laws: (t+d)-d, (t2-t1)+t1, zone-independent ==/order/hash/dict/set behaviour, trichotomy, sorted; round trips unix/unix_nano/from_timestamp, components/time(...), parse_duration(str(d)).",
   design_ref="DESIGN.md section 4, C19",
   note="Trusts the operation table written from the package documentation and Go's time zone database (time/tzdata linked in); results overflowing int64 nanoseconds are excluded and counted; d/d is accepted within relative error 2^-50."),
+ "C04": dict(
+  technique="property testing with an invariant over generated object graphs: every reachable mutable node x every discovered mutator must error and leave a canonical snapshot unchanged",
+  category="exploration",
+  text="Generated modules build shared, nested and cyclic graphs (lists, dicts, sets, tuples, structs, records, dict keys holding functions, mutable defaults, closures incl. captured top-level comprehension variables, bound methods, a host-supplied list), keep some values out of the globals, may fail midway and define mutators of their own. After ExecFileOptions returns, an independent traversal (elements, keys, fields, ParamDefault, FreeVar, Receiver) visits every reachable mutable node and applies ~30 mutators per type plus every advertised method and the module's own mutators: each applicable one must fail and nothing may change; unreachable values must stay mutable; predeclared and Universe must be untouched.",
+  design_ref="DESIGN.md section 4, C04",
+  note="Trusts the harness traversal and canonical dump; a mutator is required to fail only when it would change an unfrozen value of that shape; host-defined types other than the harness record are not explored."),
+ "C05": dict(
+  technique="concurrent scenario generation under the Go race detector in a child process, plus a metamorphic check (concurrent transcript == solo transcript)",
+  category="exploration",
+  text="Each scenario freezes a generated object graph and compiles one shared Program, then 2-6 goroutines with their own Threads run generated scripts of reads, iterations, comparisons, hashing, printing, json encoding, closure calls, re-freezing stores, rejected mutations, Program.Init and Backtrace() behind a start barrier, inside a -race child with halt_on_error; any race report is a violation, and every thread's transcript must equal that of the same script run alone.",
+  design_ref="DESIGN.md section 4, C05",
+  note="The race detector sees executed access pairs only; schedules are sampled; a cyclic struct whose printing overflows the stack (a catalogued C02 finding) is excluded and counted."),
+ "C06": dict(
+  technique="fault enumeration: exhaustive product of collection x iterating construct x mutator x exit path (incl. host panic and step-limit cancellation at every step) with post-condition invariants",
+  category="fault_enumeration",
+  text="For list, dict and set: every iterating construct (for, comprehensions, nested clauses and loops, sorted/min/max callbacks, sequence assignment in all arities, for-unpacking, *args, every universe built-in and list/dict/set/str/bytes method with the collection in each argument position, Go push iterators) x every mutator (methods, index/aug assignment, +=, |=, Go API) x exit path {exhaustion, break, continue, return, error at iteration k, nested error, host panic, cancellation at every step index}: an in-iteration mutation must fail and change nothing; right after the loop and after the outermost call returns the collection must accept a no-op mutation, the iterator-count hook must read 0, CallStackDepth must be restored and the thread must run a fresh program. Quick runs a seeded 1/8 slice plus all cut points for one mutator per construct; thorough runs the full product.",
+  design_ref="DESIGN.md section 4, C06",
+  note="Trusts the build-tagged VerifIterCount hook for early detection (the API probe is the primary oracle); mutators are chosen to change an unlocked collection."),
+ "C07": dict(
+  technique="fault enumeration over cut points with a prefix model: baseline effect stamps predict exactly which effects happen under every step limit; cancellation injected at every host call and asynchronously",
+  category="fault_enumeration",
+  text="For generated terminating programs a baseline gives S and a step stamp per host effect; for every limit N (quick: boundaries, every stamp and neighbours, random points; thorough: every N in [1,S+1] for S<=3000) the run must fail iff N<=S with the 'too many steps' cancellation, report ExecutionSteps()<=N and perform exactly the effects stamped <N; S is identical across runs and threads. Eight non-terminating shapes must be cancelled for a grid of limits; unbounded recursion without a limit must fail without killing the process (child). Cancel at the k-th host call (one or two reasons, same or other goroutine): no later effect, first reason named, sticky until Uncancel. Asynchronous Cancel of tick loops: at most one further host call.",
+  design_ref="DESIGN.md section 4, C07",
+  note="Trusts the step accounting convention (effect of the built-in called at step k carries stamp k); async cancellation is sampled in time."),
+ "C09": dict(
+  technique="property testing with planted violations against an independent rule table, crossed exhaustively with all 64 option vectors; exhaustive enumeration of recursion cycles",
+  category="exploration",
+  text="A base program legal under every option vector gets one construct from a ~65-entry catalogue planted at a random admissible slot (top level, bodies, loops, branches, nested defs, lambda defaults/bodies, comprehension clauses); under each of the 2^6 FileOptions vectors the rule table says whether it violates: then it must be rejected statically on the plant's line with no code run, otherwise it must not be rejected. The catalogue x slots of a fixed rich base is enumerated exhaustively. Recursion: all cycles over <=3 (thorough <=4) functions x all edge-kind vectors {plain, lambda, twin closures, sorted/min/max, comprehension} x back-edge targets: with recursion off the re-entering call fails and the function is not entered again, with recursion on the cycle proceeds.",
+  design_ref="DESIGN.md section 4, C09",
+  note="Trusts the rule table written from doc/spec.md; only the first error's position is asserted."),
 }
 
 PENDING_REASON = "check not built yet in this session (work in progress; DESIGN.md section 4 describes the planned generated-input check)"
